@@ -419,9 +419,16 @@ static void slides(Rng& rng, std::index_sequence<Is...>)
     mark_case("slide", tname<T>(), a, sizeof a);
     (chk(sl, true, Is, xs::slide_left<Is>(va)), ...);
     (chk(sr, false, Is, xs::slide_right<Is>(va)), ...);
+    // counts beyond the register: everything is shifted out (the API puts no bound on N)
+    chk(sl, true, BY + 1, xs::slide_left<BY + 1>(va));
+    chk(sr, false, BY + 1, xs::slide_right<BY + 1>(va));
+    chk(sl, true, BY + sizeof(T), xs::slide_left<BY + sizeof(T)>(va));
+    chk(sr, false, BY + sizeof(T), xs::slide_right<BY + sizeof(T)>(va));
+    chk(sl, true, 2 * BY, xs::slide_left<2 * BY>(va));
+    chk(sr, false, 2 * BY, xs::slide_right<2 * BY>(va));
 }
 
-// ------------------------------------------------------------------ rotate_left/right<N> for every N in [0, size)
+// ------------------------------------------------------------------ rotate_left/right<N> for every N in [0, 2*size]
 template <class T, size_t K>
 static void rotate_one(const T* a)
 {
@@ -834,7 +841,7 @@ static void all_ops(uint64_t seed)
         else
             note_na("C05", "slide_left/right", tname<T>(), "static_assert: not implemented on avx512f/cd/dq");
     }
-    rotates<T>(rng, std::make_index_sequence<N> {});
+    rotates<T>(rng, std::make_index_sequence<2 * N + 1> {}); // the API puts no bound on N: counts wrap modulo the lane count
     inserts<T>(rng, std::make_index_sequence<N> {});
     dyn<T>(rng);
 }
